@@ -1083,13 +1083,27 @@ def install(pu, extra_roots=()):
     pu.queue = FakeQueueModule
     pu.threading = FakeThreadingModule()
     pu.concurrent = FakeConcurrentModule
-    for mod in extra_roots:
-        # synchronisation primitives that other library modules import at module level are owned as well
-        if isinstance(mod, types.ModuleType):
-            if hasattr(mod, 'threading'):
-                mod.threading = FakeThreadingModule()
-            if hasattr(mod, 'queue'):
-                mod.queue = FakeQueueModule
+    import concurrent.futures as _cf
+    by_object = {
+        _real_queue.Queue: FakeQueue, _real_queue.LifoQueue: FakeLifoQueue, _real_queue.SimpleQueue: FakeSimpleQueue,
+        _real_queue.PriorityQueue: FakeQueue,
+        _real_threading.Thread: FakeThread, _real_threading.Lock: FakeLock, _real_threading.RLock: FakeRLock,
+        _real_threading.Event: FakeEvent, _real_threading.Condition: FakeCondition,
+        _real_threading.Semaphore: FakeSemaphore, _real_threading.BoundedSemaphore: FakeSemaphore,
+        _cf.ThreadPoolExecutor: FakeThreadPoolExecutor, _cf.ProcessPoolExecutor: FakeProcessPoolExecutor,
+        _real_queue: FakeQueueModule, _real_threading: None, _cf: _FuturesNS(),
+    }
+    for mod in (pu,) + tuple(m for m in extra_roots if isinstance(m, types.ModuleType)):
+        # synchronisation primitives that a library module binds under any name at module level (import x,
+        # import x as y, from x import Y) are owned as well
+        for name, val in list(vars(mod).items()):
+            try:
+                fake = by_object.get(val, False)
+            except TypeError:
+                continue
+            if fake is False:
+                continue
+            setattr(mod, name, FakeThreadingModule() if val is _real_threading else fake)
     multiprocessing.Pool = FakeMPPool
     pm = types.ModuleType('pathos.multiprocessing')
     pm.ProcessPool = FakePathosProcessPool
